@@ -762,6 +762,48 @@ check_batch(corpus + BOUNDARY)
 samples.append({"boundary": history_line(BOUNDARY[0])})
 
 # ---------------------------------------------------------------------------
+# 0'. REFUSED requests inside a history (a matrix that is not a rotation, per-element translation vectors or centres): the
+#     request raises and the probe is left exactly as it was (elements, normals AND PCS), so that the history can go on
+# ---------------------------------------------------------------------------
+def _probe_state(p_):
+    return (np.array(p_.locations.coords, copy=True), None if p_.orientations is None else np.array(p_.orientations.coords, copy=True),
+            np.array(p_.pcs.origin, copy=True), np.array(p_.pcs.i_hat, copy=True), np.array(p_.pcs.j_hat, copy=True), np.array(p_.pcs.k_hat, copy=True))
+
+
+for t_ in range(12 if Q else 100):
+    nx_, ny_ = int(rng.integers(1, 6)), int(rng.integers(1, 4))
+    p_ = arim.Probe.make_matrix_probe(nx_, float(rng.uniform(0.3e-3, 2e-3)), ny_, float(rng.uniform(0.3e-3, 2e-3)), FREQ)
+    p_.rotate(arim.geometry.rotation_matrix_ypr(*rng.uniform(-1, 1, 3)), np.array(rng.normal(size=3) * 1e-2))
+    p_.translate(rng.normal(size=3) * 1e-2)
+    n_ = p_.numelements
+    R_ = arim.geometry.rotation_matrix_ypr(*rng.uniform(-1, 1, 3))
+    attempts = [("rotate(1.5 * R)", lambda: p_.rotate(1.5 * R_)),
+                ("rotate(R + 0.2)", lambda: p_.rotate(R_ + 0.2)),
+                ("translate(one vector per element)", lambda: p_.translate(rng.normal(size=(n_, 3)) * 1e-3)),
+                ("translate(shape (1, 3))", lambda: p_.translate(rng.normal(size=(1, 3)) * 1e-3)),
+                ("rotate(R, one centre per element)", lambda: p_.rotate(R_, rng.normal(size=(n_, 3)) * 1e-3)),
+                ("set_reference_element(out of range)", lambda: p_.set_reference_element(n_ + 3))]
+    name_, fn_ = attempts[int(rng.integers(0, len(attempts)))]
+    before_ = _probe_state(p_)
+    try:
+        fn_()
+        outcome_ = "accepted"
+    except Exception as e_:      # noqa: BLE001
+        outcome_ = "raised " + type(e_).__name__
+    after_ = _probe_state(p_)
+    evaluations += 1
+    chk.count(refused_request=f"{name_}: {outcome_}")
+    if outcome_ != "accepted":
+        same_ = all((a_ is None and b_ is None) or np.array_equal(a_, b_) for a_, b_ in zip(before_, after_))
+        if not same_:
+            what_ = [nm for nm, a_, b_ in zip(("locations", "orientations", "pcs.origin", "pcs.i_hat", "pcs.j_hat", "pcs.k_hat"), before_, after_)
+                     if not ((a_ is None and b_ is None) or np.array_equal(a_, b_))]
+            chk.violation("refused-request", f"the request {name_} was refused ({outcome_}) but changed {what_}: the PCS is no longer attached to the elements",
+                          dict(request=name_, outcome=outcome_, changed=what_, numx=nx_, numy=ny_, locations_before=before_[0], locations_after=after_[0],
+                               pcs_origin_before=before_[2], pcs_origin_after=after_[2]), True)
+            break
+
+# ---------------------------------------------------------------------------
 # 1. random histories (class T), dyadic histories (class E), malformed stream
 # ---------------------------------------------------------------------------
 N_RANDOM = 1500 if Q else 24000
